@@ -365,6 +365,13 @@ pub fn run(ctx: &mut Ctx) -> Result<(), String> {
         if ctx.sample_cap() && n > 2 {
             ctx.sample(json!({"tree": "plain", "leaves": n, "indices_checked": idx.len(), "height": rt.height(), "root": hex(&rt.root())}));
         }
+        // --- slice tree over shred payloads (its own root and proof types; what shred validation uses)
+        if n <= 130 {
+            let tree_s = alpenglow::crypto::merkle::SliceMerkleTree::new(&raw);
+            let case_s: Case<Vec<u8>, SliceRoot, alpenglow::crypto::merkle::SliceProof> = Case { ty: "slice", n, leaves: &raw, raw: &raw, tree: &tree_s, rt: &rt, wrong_leaf: &wrong };
+            let idx_s = if n <= all_up_to { idx.clone() } else { pick_indices(&mut rng, n, all_up_to, sample / 2) };
+            check_tree(ctx, &mut rng, &case_s, &idx_s, n <= 16);
+        }
         // --- double-Merkle tree over slice roots (what repair uses)
         let roots: Vec<SliceRoot> = raw.iter().map(|d| SliceRoot::from(alpenglow::crypto::hash(d))).collect();
         let raw2: Vec<Vec<u8>> = roots.iter().map(|r| r.as_ref().to_vec()).collect();
